@@ -130,3 +130,70 @@ def decorators(node: ast.ClassDef | ast.FunctionDef) -> list[tuple[str, ast.Call
         else:
             out.append((dotted(d) or norm(d), None))
     return out
+
+
+class _Alpha(ast.NodeTransformer):
+    """Rename the variables bound by comprehensions / lambdas to positional names."""
+
+    def __init__(self) -> None:
+        self.env: list[dict[str, str]] = []
+        self.n = 0
+
+    def _bind(self, target: ast.AST, scope: dict[str, str]) -> None:
+        for x in ast.walk(target):
+            if isinstance(x, ast.Name):
+                scope.setdefault(x.id, f"_b{self.n}")
+                self.n += 1
+
+    def _comp(self, node):
+        import copy
+        scope: dict[str, str] = {}
+        self.env.append(scope)
+        gens = []
+        for g in node.generators:
+            it = self.visit(g.iter)
+            self._bind(g.target, scope)
+            gens.append(ast.comprehension(target=self.visit(g.target), iter=it, ifs=[self.visit(i) for i in g.ifs], is_async=g.is_async))
+        new = copy.copy(node)
+        new.generators = gens
+        if isinstance(node, ast.DictComp):
+            new.key, new.value = self.visit(node.key), self.visit(node.value)
+        else:
+            new.elt = self.visit(node.elt)
+        self.env.pop()
+        return new
+
+    visit_ListComp = visit_SetComp = visit_GeneratorExp = visit_DictComp = _comp
+
+    def visit_Lambda(self, node: ast.Lambda):
+        import copy
+        scope: dict[str, str] = {}
+        for a in node.args.args:
+            scope[a.arg] = f"_b{self.n}"
+            self.n += 1
+        self.env.append(scope)
+        new = copy.deepcopy(node)
+        for a in new.args.args:
+            a.arg = scope[a.arg]
+        new.body = self.visit(node.body)
+        self.env.pop()
+        return new
+
+    def visit_Name(self, node: ast.Name):
+        for scope in reversed(self.env):
+            if node.id in scope:
+                return ast.Name(id=scope[node.id], ctx=node.ctx)
+        return node
+
+
+def alpha(node: ast.AST) -> str:
+    """norm() modulo the names of comprehension / lambda variables; a list comprehension that is only
+    iterated (argument of tuple / list / set / sorted / any / all / sum / join) reads as a generator."""
+    import copy
+    t = _Alpha().visit(copy.deepcopy(node))
+    for c in ast.walk(t):
+        if isinstance(c, ast.Call) and len(c.args) >= 1 and isinstance(c.args[0], ast.ListComp) \
+                and (dotted(c.func) in ("tuple", "list", "set", "frozenset", "sorted", "any", "all", "sum", "min", "max", "dict")
+                     or (isinstance(c.func, ast.Attribute) and c.func.attr in ("join", "extend", "update"))):
+            c.args[0] = ast.GeneratorExp(elt=c.args[0].elt, generators=c.args[0].generators)
+    return norm(ast.fix_missing_locations(t))
